@@ -22,6 +22,13 @@ type CNode struct {
 	End      int // offset just past the item
 	Indef    bool
 	wantHead int // when re-encoding: force this head size (0 = shortest)
+	// Emb is the decoded content of a byte string that holds exactly one
+	// canonically encoded CBOR item (FDO wraps payloads, headers and vouchers
+	// this way). Walk descends into it with path segment "e".
+	Emb *CNode
+	// rawArg, when set, makes Encode emit a head claiming this length/count
+	// without changing the content (length inflation).
+	rawArg *uint64
 }
 
 var errCBOR = errors.New("refcbor: malformed")
@@ -95,6 +102,13 @@ func parseItem(b []byte, off, depth int) (*CNode, error) {
 		}
 		n.Bytes = b[p : p+int(n.Arg)]
 		p += int(n.Arg)
+		if n.Major == 2 && len(n.Bytes) > 0 && depth < 60 {
+			if e, err := parseItem(n.Bytes, 0, depth+1); err == nil && e.End == len(n.Bytes) {
+				if string(e.Encode(nil)) == string(n.Bytes) {
+					n.Emb = e
+				}
+			}
+		}
 	case 4, 5:
 		if n.Indef {
 			return nil, errCBOR
@@ -173,12 +187,28 @@ func (n *CNode) Encode(out []byte) []byte {
 	case 0, 1, 7:
 		return putHead(out, n.Major, n.Arg, n.wantHead)
 	case 2, 3:
-		out = putHead(out, n.Major, uint64(len(n.Bytes)), n.wantHead)
-		return append(out, n.Bytes...)
+		body := n.Bytes
+		if n.Emb != nil {
+			body = n.Emb.Encode(nil)
+		}
+		l := uint64(len(body))
+		if n.rawArg != nil {
+			l = *n.rawArg
+		}
+		out = putHead(out, n.Major, l, n.wantHead)
+		return append(out, body...)
 	case 4:
-		out = putHead(out, 4, uint64(len(n.Kids)), n.wantHead)
+		c := uint64(len(n.Kids))
+		if n.rawArg != nil {
+			c = *n.rawArg
+		}
+		out = putHead(out, 4, c, n.wantHead)
 	case 5:
-		out = putHead(out, 5, uint64(len(n.Kids)/2), n.wantHead)
+		c := uint64(len(n.Kids) / 2)
+		if n.rawArg != nil {
+			c = *n.rawArg
+		}
+		out = putHead(out, 5, c, n.wantHead)
 	case 6:
 		out = putHead(out, 6, n.Arg, n.wantHead)
 	}
@@ -205,6 +235,9 @@ func (n *CNode) Walk(path string, f func(path string, n *CNode)) {
 	for i, k := range n.Kids {
 		k.Walk(fmt.Sprintf("%s/%d", path, i), f)
 	}
+	if n.Emb != nil {
+		n.Emb.Walk(path+"/e", f)
+	}
 }
 
 // At returns the item at a Walk path.
@@ -212,6 +245,13 @@ func (n *CNode) At(path string) *CNode {
 	cur := n
 	for _, seg := range strings.Split(strings.Trim(path, "/"), "/") {
 		if seg == "" {
+			continue
+		}
+		if seg == "e" {
+			if cur.Emb == nil {
+				return nil
+			}
+			cur = cur.Emb
 			continue
 		}
 		var i int
@@ -227,7 +267,7 @@ func (n *CNode) At(path string) *CNode {
 func (n *CNode) Leaves() []string {
 	var out []string
 	n.Walk("", func(p string, c *CNode) {
-		if len(c.Kids) == 0 {
+		if len(c.Kids) == 0 && c.Emb == nil {
 			out = append(out, p)
 		}
 	})
@@ -237,6 +277,9 @@ func (n *CNode) Leaves() []string {
 // Embedded tries to parse a byte string as one embedded CBOR item (FDO wraps
 // payloads in bstr).
 func (n *CNode) Embedded() *CNode {
+	if n.Emb != nil {
+		return n.Emb
+	}
 	if n.Major != 2 || len(n.Bytes) == 0 {
 		return nil
 	}
